@@ -62,6 +62,7 @@ type Sched struct {
 	Alts   [][]string
 	Trace  []string
 
+	Hub         *ctl.Hub // to find the goroutine of background threads
 	Watchdog    time.Duration
 	TimedOut    bool
 	Deadlock    bool
@@ -266,7 +267,16 @@ func (s *Sched) Run() bool {
 		} else if s.Pick != nil {
 			pick = s.Pick(step, enabled)
 		} else {
+			// default continuation: stay on the thread that ran last while it can run
 			pick = enabled[0]
+			if len(s.Chosen) > 0 {
+				prev := s.Chosen[len(s.Chosen)-1]
+				for _, e := range enabled {
+					if e == prev {
+						pick = prev
+					}
+				}
+			}
 		}
 		s.Chosen = append(s.Chosen, pick)
 		s.Alts = append(s.Alts, enabled)
@@ -340,7 +350,10 @@ func (s *Sched) refreshBlocked() {
 	s.mu.Lock()
 	defer s.mu.Unlock()
 	for _, t := range s.threads {
-		if t.bg || t.goid == 0 || (t.st != running && t.st != blocked) {
+		if t.goid == 0 && s.Hub != nil {
+			t.goid = s.Hub.GoidOf(t.name)
+		}
+		if t.goid == 0 || (t.st != running && t.st != blocked) {
 			continue
 		}
 		st := status[t.goid]
@@ -421,6 +434,30 @@ type Result struct {
 // exec must return the schedule actually taken and the enabled sets. maxExec
 // bounds the number of executions (0 = unbounded); returns (#executions, complete).
 func Explore(workers, maxExec int, exec func(prefix []string) Result) (int, bool) {
+	return ExploreBounded(workers, maxExec, -1, exec)
+}
+
+// preemptions counts the context switches away from a thread that could have continued.
+func preemptions(chosen []string, alts [][]string, upto int) int {
+	n := 0
+	for i := 1; i < upto && i < len(chosen); i++ {
+		prev := chosen[i-1]
+		if chosen[i] == prev {
+			continue
+		}
+		for _, a := range alts[i] {
+			if a == prev {
+				n++
+				break
+			}
+		}
+	}
+	return n
+}
+
+// ExploreBounded is Explore restricted to schedules with at most maxPreempt
+// preemptions (-1 = unbounded, i.e. every schedule).
+func ExploreBounded(workers, maxExec, maxPreempt int, exec func(prefix []string) Result) (int, bool) {
 	type item struct{ prefix []string }
 	var mu sync.Mutex
 	cond := sync.NewCond(&mu)
@@ -468,8 +505,29 @@ func Explore(workers, maxExec int, exec func(prefix []string) Result) (int, bool
 
 				mu.Lock()
 				for i := len(it.prefix); i < len(res.Chosen); i++ {
+					base := 0
+					prevEnabled := false
+					if maxPreempt >= 0 {
+						base = preemptions(res.Chosen, res.Alts, i)
+						if i > 0 {
+							for _, a := range res.Alts[i] {
+								if a == res.Chosen[i-1] {
+									prevEnabled = true
+								}
+							}
+						}
+					}
 					for _, a := range res.Alts[i] {
 						if a != res.Chosen[i] {
+							if maxPreempt >= 0 {
+								cost := base
+								if prevEnabled && a != res.Chosen[i-1] {
+									cost++
+								}
+								if cost > maxPreempt {
+									continue
+								}
+							}
 							np := append(append([]string(nil), res.Chosen[:i]...), a)
 							queue = append(queue, item{np})
 						}
